@@ -3,7 +3,7 @@
    Subject: `encode` / `bparse` of Codec/Model.v (the schema-interpreting model of the generated Encode / Parse over a
    BufferReader) on the schemas of Codec/GenSchemas.v, which are re-translated from the source on every run.
    The last sentence of the property (generated code = generator output) is a finite direct decision made by the check. *)
-From Codec Require Import Schema Readers Model Spec GenSchemas SchemasWf LeafLemmas Roundtrip Theorems13 LengthExact.
+From Codec Require Import Schema Readers Model Spec GenSchemas SchemasWf LeafLemmas Roundtrip Theorems13 LengthExact DecodeThms.
 Open Scope N_scope.
 
 (* the schemas the generator front end parses from the current definitions are well formed (79 models at pin time) *)
@@ -18,6 +18,14 @@ Theorem codec_roundtrip : forall sc, schema_wf sc = true ->
   exists ctx cov, bparse (S d) sc mi ic (br_of (encode fuel sc mi vs)) = Ok (vs, ctx, cov).
 Proof. exact bparse_roundtrip. Qed.
 Print Assumptions codec_roundtrip.
+
+(* the same for `decode` itself — nesting fuel = input length + 1, which is what the runner executes against the
+   implementation (never exhausted: C04 decode_total; more fuel changes nothing: Mono.v) *)
+Theorem codec_roundtrip_decode : forall sc, schema_wf sc = true ->
+  forall fuel mi vs ic, wf_value fuel sc mi vs = true -> small (encode fuel sc mi vs) ->
+  exists ctx cov, decode sc mi ic (encode fuel sc mi vs) = Ok (vs, ctx, cov).
+Proof. exact decode_roundtrip. Qed.
+Print Assumptions codec_roundtrip_decode.
 
 (* ... in particular for every model of every generated package of the tree *)
 Theorem codec_roundtrip_generated : forall sc, In sc all_schemas ->
@@ -45,6 +53,14 @@ Theorem unknown_noncritical_skipped : forall sc, schema_wf sc = true ->
 Proof. exact bparse_unknown_skipped. Qed.
 Print Assumptions unknown_noncritical_skipped.
 
+Theorem unknown_noncritical_skipped_decode : forall sc, schema_wf sc = true ->
+  forall f mi vs ic es1 es2 t pl, wf_value (S f) sc mi vs = true -> small (encode (S f) sc mi vs) ->
+  elements f sc mi vs = es1 ++ es2 ->
+  find_field t 0 (flds (the_model sc mi)) = None -> (ic = true \/ critical t = false) -> t < two64 -> small pl ->
+  exists ctx cov, decode sc mi ic (concat es1 ++ tlv t pl ++ concat es2) = Ok (vs, ctx, cov).
+Proof. exact decode_unknown_skipped. Qed.
+Print Assumptions unknown_noncritical_skipped_decode.
+
 (* an unrecognised critical element (type number <= 31 or odd) at any element boundary causes rejection
    (ErrUnrecognizedField) when the caller did not ask to ignore critical elements — whatever follows it *)
 Theorem unknown_critical_rejected : forall sc, schema_wf sc = true ->
@@ -54,6 +70,14 @@ Theorem unknown_critical_rejected : forall sc, schema_wf sc = true ->
   bparse (S d) sc mi false (br_of (concat es1 ++ tl_enc t ++ tl_enc l ++ junk)) = Err E_CRITICAL.
 Proof. exact bparse_unknown_critical_rejected. Qed.
 Print Assumptions unknown_critical_rejected.
+
+Theorem unknown_critical_rejected_decode : forall sc, schema_wf sc = true ->
+  forall f mi vs es1 es2 t l junk, wf_value (S f) sc mi vs = true -> small (encode (S f) sc mi vs) ->
+  elements f sc mi vs = es1 ++ es2 ->
+  find_field t 0 (flds (the_model sc mi)) = None -> critical t = true -> t < two64 -> l < two64 ->
+  decode sc mi false (concat es1 ++ tl_enc t ++ tl_enc l ++ junk) = Err E_CRITICAL.
+Proof. exact decode_unknown_critical_rejected. Qed.
+Print Assumptions unknown_critical_rejected_decode.
 
 (* the elements are the encoding *)
 Theorem elements_are_encoding : forall f sc mi vs, wf_value (S f) sc mi vs = true ->
